@@ -15,6 +15,8 @@
 -/
 import Driver.Proto
 import Driver.FamCharPartition
+import Driver.FamAutomaton
+import SmtModel.Model.Compile
 import SmtModel.Model.Closure
 import SmtModel.Model.ReplaceRe
 import SmtModel.Spec.RefMatch
@@ -185,6 +187,28 @@ def specReplaceReAll (t : RE) (r : List Nat) : Nat → List Nat → List Nat
     match specFirstMatch t s 0 true with
     | none => s
     | some (i, j) => s.take i ++ r ++ specReplaceReAll t r fuel (s.drop j)
+
+/-- C02 on a printed automaton: total `next` at every test character from every state, one state
+    per distinct derivative, and `accepts` agrees with `refMatch` on every test string -/
+def autCheck (st : ReSt) (e : RE) (impl : String) : Option String :=
+  if impl == "PANIC" then none
+  else match FamAutomaton.rAut impl with
+    | none => some "unparsable-automaton"
+    | some A =>
+      let badStep := A.states.findSome? fun s =>
+        (st.chars ++ [0, MAX_CHAR]).findSome? fun c =>
+          match A.next s c with
+          | some _ => none
+          | none => some s!"next-undefined:state={s.id}:char={c}"
+      match badStep with
+      | some m => some m
+      | none =>
+        match st.strings.find? (fun w => A.accepts w != some (refMatch e w)) with
+        | some w => some s!"LANG-DIFF:string={pNats w}:expected={pBool (refMatch e w)}"
+        | none =>
+          match iterDerivatives st.ord FUEL e with
+          | .ok l => if l.length == A.numStates then none else some s!"num-states={A.numStates}:closure-size={l.length}"
+          | _ => none
 
 def handle (st : ReSt) (op : String) (args : List String) : ReSt × Option Reply :=
   let ord := st.ord
@@ -401,6 +425,29 @@ def handle (st : ReSt) (op : String) (args : List String) : ReSt × Option Reply
         (pOpt (fun (i, j) => s!"{i}:{j}")
           (if allow && refMatch a [] then some (k, k)
            else if k > s.length then none else specFirstMatch a s k true))
+  -- ---------- compilation to a DFA (C02, C19)
+  | "compile", [a] => pure' do
+      let a ← st.term a
+      let m := pRes FamAutomaton.pAut (compile ord FUEL a)
+      some { model := m, specCheck := some (autCheck st a) }
+  | "try_compile", [a, n] => pure' do
+      let a ← st.term a; let n ← rNat n
+      let m := pRes (pOpt FamAutomaton.pAut) (tryCompile ord FUEL a n)
+      -- spec: Some iff the number of distinct derivatives is ≤ n (and n ≠ 0); then language-equal
+      let closure := match iterDerivatives ord FUEL a with | .ok l => some l.length | _ => none
+      some { model := m, specCheck := some fun impl =>
+        if impl == "PANIC" then none
+        else if impl == "none" then
+          match closure with
+          | some k => if n ≠ 0 && k ≤ n then some s!"returns-none-but-closure-size={k}<=bound={n}" else none
+          | none => none
+        else if impl.startsWith "some:" then
+          match closure with
+          | some k =>
+            if n == 0 || k > n then some s!"returns-automaton-but-closure-size={k}>bound={n}"
+            else autCheck st a (sDrop impl 5)
+          | none => autCheck st a (sDrop impl 5)
+        else some "unparsable" }
   | _, _ => (st, none)
 
 end Driver.FamRe
